@@ -2149,9 +2149,10 @@ class MultiUserChannelMatrixExtInt(  # pylint: disable=R0904
     @property
     def H_no_ext_int(self) -> np.ndarray:
         """Get method for the H_no_ext_int property."""
-        # Call H property get method of the base class
-        H = MultiUserChannelMatrix.H.fget(self)  # type: ignore
-        return H[:self.K, :self.K]
+        # The H property already has only the rows of the K receivers
+        # (with the path loss applied, if any). We only need to drop the
+        # columns of the external interference sources.
+        return self.H[:, :self.K]
 
     def corrupt_data(  # type: ignore
             self, data: np.ndarray, ext_int_data: np.ndarray) -> np.ndarray:
